@@ -216,6 +216,58 @@ def model_eval(shard_id, cases):
     return [(int(a[0]), int(a[1]), list(a[2]), ["".join(chr(c) for c in s) for s in a[3]]) for a in res]
 
 
+RAW_NAMES = [b"caf\xe9.mmm", b"\xff.mmm", b"a\xc3.mmm", b"\xe9\xe8 x.mmm", b"ok.mmm", b"x.mm\xed", b"\xe9.ms", b"caf\xe9.mmm.bak", b"\xff"]
+RAW_DIRS = [b"proj", b"d\xe9p\xf4t", b"\xff\xfe"]
+
+
+def run_raw_names(ctx, binary, base):
+    """file and directory names that are NOT valid UTF-8 (legal on Linux; Latin-1 names from an old archive): the extension
+    of `caf\\xe9.mmm` is mmm.  Outside the Coq model (whose names are code-point lists); byte-level Python oracle."""
+    n = 0
+    for dn in RAW_DIRS:
+        for inv in ("abs", "rel", "dot"):
+            root = tempfile.mkdtemp(prefix="raw-", dir=base).encode()
+            d = os.path.join(root, dn)
+            os.mkdir(d)
+            for i, nm in enumerate(RAW_NAMES):
+                with open(os.path.join(d, nm), "w") as f:
+                    f.write("id:%d\n" % i)
+            os.mkdir(os.path.join(d, b"sub\xe9.mmm.d"))
+            with open(os.path.join(d, b"sub\xe9.mmm.d", b"in\xe9.mmm"), "w") as f:
+                f.write("deep\n")
+            args, cwd = {"abs": ([b"clean", d], root), "rel": ([b"clean", dn], root), "dot": ([b"clean", b"."], d)}[inv]
+            import subprocess
+            try:
+                pr = subprocess.run([binary.encode()] + args, cwd=cwd, capture_output=True, timeout=30)
+                rc, out, err = pr.returncode, pr.stdout, pr.stderr
+            except subprocess.TimeoutExpired:
+                rc, out, err = 124, b"", b""
+            left = sorted(os.listdir(d))
+            deep_left = os.path.exists(os.path.join(d, b"sub\xe9.mmm.d", b"in\xe9.mmm"))
+            shutil.rmtree(root, ignore_errors=True)
+            want_gone = [x for x in RAW_NAMES if x.endswith(b".mmm") and len(x) > 4]
+            want_left = sorted([x for x in RAW_NAMES if x not in want_gone] + [b"sub\xe9.mmm.d"])
+            m = re.findall(rb"Removed (\d+) files", ANSI.sub("", out.decode("utf8", "replace")).encode())
+            n += 1
+            bad = None
+            arg_is_text = inv == "dot" or dn == b"proj"
+            if rc != 0 and not arg_is_text and left == sorted(RAW_NAMES + [b"sub\xe9.mmm.d"]) and deep_left:
+                continue            # a DIR argument that is not text is refused, nothing touched: allowed
+            if rc != 0:
+                bad = "exit %d: %s" % (rc, err.decode("utf8", "replace")[-300:])
+            elif left != want_left or not deep_left:
+                bad = "left %r, expected %r (file in the sub-directory kept: %s)" % (left, want_left, deep_left)
+            elif not m or int(m[-1]) != len(want_gone):
+                bad = "reports %r removed files, %d were" % (m, len(want_gone))
+            if bad:
+                ctx.report("non-utf8-name", "clean of a directory %r (%s) with file names that are not valid UTF-8: %s" % (dn, inv, bad),
+                           {"directory": repr(dn), "names": [repr(x) for x in RAW_NAMES], "invoke": inv, "left": [repr(x) for x in left],
+                            "stdout": out.decode("utf8", "replace")[-500:], "stderr": err.decode("utf8", "replace")[-500:],
+                            "how": "create the files (byte names as given), run mscript clean; exactly the *.mmm files directly inside must go"})
+    ctx.cov["non_utf8_name_cases"] = n
+    return n
+
+
 def run(ctx):
     ok = core.coq_props(ctx, "Props/C20.v")
     binary = core.build_repo()
@@ -338,6 +390,9 @@ def run(ctx):
                        {"what": what, "arg": arg, "rc": rc, "stdout": out[-500:], "stderr": err[-500:]})
         shutil.rmtree(root, ignore_errors=True)
 
+    nv = len(ctx.viol)
+    extra += run_raw_names(ctx, binary, base)
+    spec_fail += len(ctx.viol) - nv
     ctx.cov["evaluations"] = len(trees) + extra
     ctx.cov["distinct_nontrivial"] = nontrivial
     ctx.cov["exhaustive"] = True
